@@ -188,7 +188,7 @@ def transfer_body(units, T=3):
     return body
 
 
-def body_factory(name, pattern, scenario=None, y_factors=True, T=3):
+def body_factory(name, pattern, scenario=None, y_factors=True, T=3, copy_first=None):
     def body(env):
         am, ap, au, apar, afp = mr.modules()
         import atomica.scenarios as ascn
@@ -255,6 +255,14 @@ def body_factory(name, pattern, scenario=None, y_factors=True, T=3):
                         c.vals[ti] = env.cut(c.vals[ti], "x%d|%s|%s" % (ti, c.name, pop.name), [nn])
 
             m = mr.build_model(env, P.settings, F, ps_run)
+            if copy_first:
+                # the documented build once / copy / process pattern: the copy (and the original it was taken from) must still
+                # evaluate every function
+                import pickle
+
+                m = copy.deepcopy(m) if copy_first == "deepcopy" else pickle.loads(pickle.dumps(m))
+                if env.symbolic:
+                    env.heap(mr.all_vars(m) + [m])
             with Hooks(am, post=dict(update_comps=post_comps)):
                 m.process()
             ax = shim.exp_axioms() if env.symbolic else ()
@@ -415,6 +423,9 @@ def specs(tier):
     pats = ["assumption", "two_inside", "outside", "three"] if tier == "quick" else list(PATTERNS)
     for pat in pats:
         out.append(("pipeline[M10;%s]" % pat, dict(name="M10", pattern=pat)))
+    out.append(("pipeline[M10;assumption;model pickled before the run]", dict(name="M10", pattern="assumption", copy_first="pickle")))
+    if tier != "quick":
+        out.append(("pipeline[M10;assumption;model deep-copied before the run]", dict(name="M10", pattern="assumption", copy_first="deepcopy")))
     out.append(("pipeline[M2;three]", dict(name="M2", pattern="three")))
     out.append(("pipeline[M12;two_inside]", dict(name="M12", pattern="two_inside")))
     out.append(("pipeline[M11;assumption]", dict(name="M11", pattern="assumption")))
